@@ -125,6 +125,9 @@ func H02c() {
 		vCover("accepted")
 		vAssert(allSigned, "H02c.signer_known: accepted a presentation whose signer cannot be determined")
 		vAssert(signerIsSubject, "H02c.signer_is_subject: accepted a presentation not signed by the subject of its credentials")
+		if !commonSubject {
+			vClass("mixed subjects separated by a credential-less presentation")
+		}
 		vAssert(commonSubject, "H02c.common_subject: accepted presentations whose credentials have different subjects")
 		if anyCredential {
 			vCover("accepted-with-credentials")
